@@ -1,11 +1,14 @@
 import A2Verif.Lemmas.FsDosPutA
 /-!
-# `put`, part B: the loop of `write_file` for a file that fits one T/S list
+# `put`, part B: the loop of `write_file` while it fills one T/S list
 
-`LI` is the loop invariant at chunk index `s`: the T/S list under construction holds the pairs of the chunks
-written so far (holes are (0,0)), every data sector holds its chunk padded to the sector, all sectors taken are
-distinct, were free before and are marked used now, everything else is untouched, and enough free sectors remain
-for the chunks still to come.  Core Lean only.
+The loop body is split into `bodyA` (the data sector or hole of one chunk index) and `bodyB` (the spill to a new T/S
+list, or the next iteration).  `LI K p st w` is the loop invariant of the T/S list described by `K` (its sector,
+the chunk index `K.base` of its first pair, the state `K.img0`/`K.v0` when it was started) after `p` pairs: the list
+under construction holds the pairs of the chunks written so far (holes are (0,0)), every data sector holds its chunk
+padded to the sector, all sectors taken are distinct, were free when the list was started and are marked used now,
+everything else is untouched, and enough free sectors remain for the chunks and T/S lists still to come.
+Core Lean only.
 -/
 set_option linter.unusedSimpArgs false
 namespace A2Verif.Fs.Dos3x
@@ -38,7 +41,22 @@ theorem pair_splice {b : Bytes} {s a a' k : Nat} (hb : b.length = 256) (hs : s <
   · simp only [hk, if_false]
     exact ⟨getD_splice_other hl (by simp; omega), getD_splice_other hl (by simp; omega)⟩
 
-/-- the fixed data of one `write_file` run -/
+theorem getD_zeros' (n i : Nat) : (zeros n).getD i 0 = 0 := by
+  unfold zeros
+  rw [getD_eq]
+  by_cases h : i < n
+  · rw [List.getElem?_replicate, if_pos h]; rfl
+  · rw [List.getElem?_eq_none (by rw [List.length_replicate]; omega)]; rfl
+
+theorem zeros_length' (n : Nat) : (zeros n).length = n := List.length_replicate
+
+theorem allocM_apply {w : W} (h : WOk w) {t s : Nat} (ht : t < 35) (hs : s < w.c) :
+    allocM t s w = (.ok (), w.withV (alloc' w.v w.c t s)) := by
+  unfold allocM M.modV
+  simp only [allocate_eq' h.vok ht hs]
+  rfl
+
+/-- the fixed data of one T/S list of a `write_file` run -/
 structure PCtx where
   c : Nat
   img0 : Raw
@@ -50,12 +68,17 @@ structure PCtx where
   dir3 : Bytes
   chunks : List (Nat × Bytes)
   endIdx : Nat
+  /-- chunk index of pair 0 of this T/S list -/
+  base : Nat
+  /-- T/S lists still to be reserved after this one -/
+  later : Nat
 
 def PCtx.unit (K : PCtx) (b : Bytes) (k : Nat) : Nat := pairT b k * K.c + pairS b k
 
 structure PCtxOk (K : PCtx) : Prop where
   hc : K.c = 13 ∨ K.c = 16
   huT : K.uT = K.tt * K.c + K.tsec
+  htt1 : 1 ≤ K.tt
   htt : K.tt < 35
   htsec : K.tsec < K.c
   uTfree : isFreeU K.v0 K.c K.uT = true
@@ -63,7 +86,6 @@ structure PCtxOk (K : PCtx) : Prop where
   vtUsed : isFreeU K.v0 K.c (vtocTrack * K.c) = false
   udNe : K.ud ≠ vtocTrack * K.c
   dlen : K.dir3.length = 256
-  hend : K.endIdx ≤ 122
 
 /-- chunks still to be written from index `s` on -/
 def PCtx.todo (K : PCtx) (s : Nat) : Nat := ((rng s K.endIdx).filter (fun k => (K.chunks.lookup k).isSome)).length
@@ -76,16 +98,16 @@ structure LI (K : PCtx) (s : Nat) (st : LoopSt) (w : W) : Prop where
   tlen : st.tsl.length = 256
   taken : Taken K.v0 w.v K.c (K.uT :: pairUnits K.c st.tsl (List.range 122))
   next0 : st.tsl.getD 1 0 = 0 ∧ st.tsl.getD 2 0 = 0
-  pres : ∀ k d, k < s → K.chunks.lookup k = some d →
+  pres : ∀ k d, k < s → K.chunks.lookup (K.base + k) = some d →
     pairT st.tsl k ≠ 0 ∧ pairT st.tsl k < 35 ∧ pairS st.tsl k < K.c ∧ sec w.img (K.unit st.tsl k) = quantize d
-  hole : ∀ k, k < 122 → (s ≤ k ∨ K.chunks.lookup k = none) → pairT st.tsl k = 0
+  hole : ∀ k, k < 122 → (s ≤ k ∨ K.chunks.lookup (K.base + k) = none) → pairT st.tsl k = 0
   dfree : ∀ k, k < 122 → pairT st.tsl k ≠ 0 → isFreeU K.v0 K.c (K.unit st.tsl k) = true ∧ K.unit st.tsl k ≠ K.uT
   inj : ∀ k k', k < 122 → k' < 122 → pairT st.tsl k ≠ 0 → pairT st.tsl k' ≠ 0 → K.unit st.tsl k = K.unit st.tsl k' → k = k'
   frame : ∀ x, x ≠ K.uT → x ≠ K.ud → x ≠ vtocTrack * K.c → (∀ k, k < 122 → pairT st.tsl k ≠ 0 → x ≠ K.unit st.tsl k) →
     sec w.img x = sec K.img0 x
   hud : sec w.img K.ud = K.dir3
   hT : 0 < s → sec w.img K.uT = st.tsl
-  need : K.todo s ≤ nfree w.v K.c
+  need : K.todo (K.base + s) + K.later ≤ nfree w.v K.c
 
 theorem todo_step_some {K : PCtx} {s : Nat} {d : Bytes} (hs : s < K.endIdx) (h : K.chunks.lookup s = some d) :
     K.todo s = K.todo (s + 1) + 1 := by
@@ -105,10 +127,46 @@ theorem todo_step_none {K : PCtx} {s : Nat} (hs : s < K.endIdx) (h : K.chunks.lo
 theorem updateLastTrackM_apply (t : Nat) (w : W) : updateLastTrackM t w = (.ok (), w.withV (updateLastTrack w.v t)) := rfl
 theorem nextFreeM_apply (pj : Bool) (w : W) : nextFreeM pj w = (nextFree w.v pj, w) := rfl
 
-section step
-variable {K : PCtx} {s : Nat} {st : LoopSt} {w : W} (hk : PCtxOk K) (hli : LI K s st w) (hs : s < K.endIdx)
-include hk hli hs
+/-! ## the loop body in two halves -/
 
+/-- first half of the body of `for s in 0..fimg.end()`: the data sector (or the hole) of chunk index `s`; returns the
+T/S list as rewritten -/
+def bodyA (chunks : List (Nat × Bytes)) (s : Nat) (st : LoopSt) : M Bytes :=
+  match chunks.lookup s with
+  | some chunk => do
+    let (dt, ds) ← nextFreeM false
+    let tsl1 := splice st.tsl (12 + 2 * st.p) [dt, ds]
+    writeSectorM tsl1 st.tt st.tsec
+    writeSectorM chunk dt ds
+    updateLastTrackM dt
+    pure tsl1
+  | none => do
+    let tsl1 := splice st.tsl (12 + 2 * st.p) [0, 0]
+    writeSectorM tsl1 st.tt st.tsec
+    pure tsl1
+
+/-- second half: spill to a new T/S list sector when this one is full and chunks remain, then the rest of the loop -/
+def bodyB (chunks : List (Nat × Bytes)) (maxPairs endIdx s : Nat) (rest : List Nat) (st : LoopSt) (tsl1 : Bytes) : M Unit :=
+  if st.p + 1 = maxPairs ∧ s + 1 ≠ endIdx then do
+    let (nt, ns) ← nextFreeM false
+    allocM nt ns
+    let tsl2 := splice tsl1 1 [nt, ns]
+    writeSectorM tsl2 st.tt st.tsec
+    updateLastTrackM st.tt
+    let sb := st.secBase + maxPairs
+    putLoop chunks maxPairs endIdx rest
+      { tsl := splice (zeros 256) 5 (u16le (sb % 65536)), tt := nt, tsec := ns, p := 0, secBase := sb }
+  else putLoop chunks maxPairs endIdx rest { st with tsl := tsl1, p := st.p + 1 }
+
+theorem putLoop_cons (chunks : List (Nat × Bytes)) (maxPairs endIdx s : Nat) (rest : List Nat) (st : LoopSt) :
+    putLoop chunks maxPairs endIdx (s :: rest) st = bodyA chunks s st >>= bodyB chunks maxPairs endIdx s rest st := rfl
+
+section step
+variable {K : PCtx} {s : Nat} {st : LoopSt} {w : W} (hk : PCtxOk K) (hli : LI K s st w) (hs122 : s < 122)
+  (hs : K.base + s < K.endIdx)
+include hk hli hs122 hs
+
+omit hs122 hs in
 theorem uT_facts : K.uT < 35 * K.c ∧ K.uT ≠ vtocTrack * K.c ∧ K.uT ≠ K.ud ∧ ¬ (K.tt = vtocTrack ∧ K.tsec = 0) ∧
     bitFree w.v w.c K.tt K.tsec = false := by
   have h1 : K.uT < 35 * K.c := by rw [hk.huT]; exact unit_lt hk.htt hk.htsec
@@ -120,11 +178,10 @@ theorem uT_facts : K.uT < 35 * K.c ∧ K.uT ≠ vtocTrack * K.c ∧ K.uT ≠ K.u
   rw [hli.hc, this]
   simp
 
-/-- one iteration of the loop at a hole -/
-theorem loop_step_none (hn : K.chunks.lookup s = none) (rest : List Nat) :
-    ∃ st' w', putLoop K.chunks 122 K.endIdx (s :: rest) st w = putLoop K.chunks 122 K.endIdx rest st' w' ∧ LI K (s + 1) st' w' := by
-  obtain ⟨hu1, hu2, hu3, hu4, hused⟩ := uT_facts hk hli hs
-  have hs122 : s < 122 := Nat.lt_of_lt_of_le hs hk.hend
+/-- the first half of one iteration at a hole -/
+theorem body_none (hn : K.chunks.lookup (K.base + s) = none) :
+    ∃ tsl1 w', bodyA K.chunks (K.base + s) st w = (.ok tsl1, w') ∧ LI K (s + 1) { st with tsl := tsl1, p := st.p + 1 } w' := by
+  obtain ⟨hu1, hu2, hu3, hu4, hused⟩ := uT_facts hk hli
   have hl' : (splice st.tsl (12 + 2 * s) [0, 0]).length = 256 := by
     rw [splice_length (by rw [hli.tlen]; simp; omega)]; exact hli.tlen
   have hwr := writeSectorM_used hli.wok (t := K.tt) (s := K.tsec) (data := splice st.tsl (12 + 2 * s) [0, 0]) hk.htt
@@ -154,12 +211,9 @@ theorem loop_step_none (hn : K.chunks.lookup s = none) (rest : List Nat) :
         if y = K.uT then splice st.tsl (12 + 2 * s) [0, 0] else sec w.img y := by
     intro y hy
     rw [sec_wrote' hli.wok hk.htt (by rw [hli.hc]; exact hk.htsec) _ _ (by rw [hli.hc]; exact hy), hli.hc, ← hk.huT]
-  refine ⟨{ st with tsl := splice st.tsl (12 + 2 * s) [0, 0], p := st.p + 1 },
-    w.wrote K.tt K.tsec (splice st.tsl (12 + 2 * s) [0, 0]) w.v, ?_, ?_⟩
-  · rw [putLoop]
+  refine ⟨splice st.tsl (12 + 2 * s) [0, 0], w.wrote K.tt K.tsec (splice st.tsl (12 + 2 * s) [0, 0]) w.v, ?_, ?_⟩
+  · unfold bodyA
     simp only [M.bind_apply, hn, hli.hst.2.2, hli.hst.1, hli.hst.2.1, hwr, M.pure_apply]
-    have : ¬ (s + 1 = 122 ∧ s + 1 ≠ K.endIdx) := by have := hk.hend; omega
-    simp only [this, if_false]
     rfl
   · refine ⟨wrote_ok hli.wok hk.htt (by rw [hli.hc]; exact hk.htsec) hl', hli.hc, hli.aok, ⟨hli.hst.1, hli.hst.2.1, by simp [hli.hst.2.2]⟩, hl',
       hli.taken.congr (fun y => by simp only [List.mem_cons, hmem]), ?_, ?_, ?_, ?_, ?_, ?_, ?_, ?_, ?_⟩
@@ -193,13 +247,13 @@ theorem loop_step_none (hn : K.chunks.lookup s = none) (rest : List Nat) :
     · rw [hsec _ hk.udNe, if_neg (Ne.symm hu3)]; exact hli.hud
     · intro _
       rw [hsec _ hu2, if_pos rfl]
-    · rw [← todo_step_none hs hn]; exact hli.need
+    · show K.todo (K.base + s + 1) + K.later ≤ _
+      rw [← todo_step_none hs hn]; exact hli.need
 
-/-- one iteration of the loop at a stored chunk -/
-theorem loop_step_some {d : Bytes} (hd : K.chunks.lookup s = some d) (rest : List Nat) :
-    ∃ st' w', putLoop K.chunks 122 K.endIdx (s :: rest) st w = putLoop K.chunks 122 K.endIdx rest st' w' ∧ LI K (s + 1) st' w' := by
-  obtain ⟨hu1, hu2, hu3, hu4, hused⟩ := uT_facts hk hli hs
-  have hs122 : s < 122 := Nat.lt_of_lt_of_le hs hk.hend
+/-- the first half of one iteration at a stored chunk -/
+theorem body_some {d : Bytes} (hd : K.chunks.lookup (K.base + s) = some d) :
+    ∃ tsl1 w', bodyA K.chunks (K.base + s) st w = (.ok tsl1, w') ∧ LI K (s + 1) { st with tsl := tsl1, p := st.p + 1 } w' := by
+  obtain ⟨hu1, hu2, hu3, hu4, hused⟩ := uT_facts hk hli
   have hcw := hli.hc
   -- the data sector
   have hpos : 0 < nfree w.v K.c := by have := hli.need; rw [todo_step_some hs hd] at this; omega
@@ -274,11 +328,9 @@ theorem loop_step_some {d : Bytes} (hd : K.chunks.lookup s = some d) (rest : Lis
   have holdne : ∀ k, k < 122 → pairT st.tsl k ≠ 0 → K.unit st.tsl k ≠ a * K.c + b := by
     intro k hk1 h0 e
     exact hxD (mem_pairUnits.2 ⟨k, hk1, h0, e.symm⟩)
-  refine ⟨{ st with tsl := splice st.tsl (12 + 2 * s) [a, b], p := st.p + 1 }, w3, ?_, ?_⟩
-  · rw [putLoop]
+  refine ⟨splice st.tsl (12 + 2 * s) [a, b], w3, ?_, ?_⟩
+  · unfold bodyA
     simp only [M.bind_apply, hd, hli.hst.2.2, hli.hst.1, hli.hst.2.1, nextFreeM_apply, hnf, hwr1, hwr2, hwr3, M.pure_apply]
-    have : ¬ (s + 1 = 122 ∧ s + 1 ≠ K.endIdx) := by have := hk.hend; omega
-    simp only [this, if_false]
     rfl
   · have htaken : Taken K.v0 w3.v K.c (K.uT :: pairUnits K.c (splice st.tsl (12 + 2 * s) [a, b]) (List.range 122)) := by
       rw [hv3]
@@ -354,34 +406,30 @@ theorem loop_step_some {d : Bytes} (hd : K.chunks.lookup s = some d) (rest : Lis
       have h2 := nfree_taken_nil htk2
       have h3 := hli.need
       rw [todo_step_some hs hd] at h3
+      show K.todo (K.base + s + 1) + K.later ≤ _
       rw [hv3, h2]
       omega
 
+
+
+/-- the first half of one iteration -/
+theorem body_step :
+    ∃ tsl1 w', bodyA K.chunks (K.base + s) st w = (.ok tsl1, w') ∧ LI K (s + 1) { st with tsl := tsl1, p := st.p + 1 } w' := by
+  cases hl : K.chunks.lookup (K.base + s) with
+  | none => exact body_none hk hli hs122 hs hl
+  | some d => exact body_some hk hli hs122 hs hl
+
+/-- one iteration that does not spill: a pair is added to the current T/S list -/
+theorem loop_step_stay (hstay : ¬ (s + 1 = 122 ∧ K.base + s + 1 ≠ K.endIdx)) (rest : List Nat) :
+    ∃ st' w', putLoop K.chunks 122 K.endIdx ((K.base + s) :: rest) st w = putLoop K.chunks 122 K.endIdx rest st' w' ∧
+      LI K (s + 1) st' w' := by
+  obtain ⟨tsl1, w', hb, hli'⟩ := body_step hk hli hs122 hs
+  refine ⟨_, w', ?_, hli'⟩
+  rw [putLoop_cons]
+  simp only [M.bind_apply, hb]
+  unfold bodyB
+  rw [hli.hst.2.2, if_neg hstay]
+
 end step
-
-
-/-- the whole loop -/
-theorem loop_all {K : PCtx} (hk : PCtxOk K) : ∀ (n s : Nat) (st : LoopSt) (w : W), K.endIdx - s = n → s ≤ K.endIdx → LI K s st w →
-    ∃ st' w', putLoop K.chunks 122 K.endIdx (List.range' s n) st w = (.ok (), w') ∧ LI K K.endIdx st' w' := by
-  intro n
-  induction n with
-  | zero =>
-    intro s st w hn hs hli
-    have : s = K.endIdx := by omega
-    subst this
-    exact ⟨st, w, rfl, hli⟩
-  | succ n ih =>
-    intro s st w hn hs hli
-    have hlt : s < K.endIdx := by omega
-    rw [List.range'_succ]
-    cases hl : K.chunks.lookup s with
-    | none =>
-      obtain ⟨st1, w1, he, hli1⟩ := loop_step_none hk hli hlt hl (List.range' (s + 1) n)
-      rw [he]
-      exact ih (s + 1) st1 w1 (by omega) (by omega) hli1
-    | some d =>
-      obtain ⟨st1, w1, he, hli1⟩ := loop_step_some hk hli hlt hl (List.range' (s + 1) n)
-      rw [he]
-      exact ih (s + 1) st1 w1 (by omega) (by omega) hli1
 
 end A2Verif.Fs.Dos3x
